@@ -26,7 +26,14 @@ agree bit for bit.  Violations are decided on the implementation's output by exa
   a touch test says `no touch' although n*r >= |c| (axes) / the closed disc D(z, r) meets the unit circle,
   a root that was UNKNOWN comes out IN (OUT) although D(z, r) is not strictly inside (outside) the set,
   a decided root flips, a cluster is left partly UNKNOWN, NOT_REAL on a disc meeting the real axis, wrong counts.
-A model/implementation difference on a case without a wrong claim is reported as broken correspondence (no input)."""
+A model/implementation difference on a case without a wrong claim is reported as broken correspondence (no input).
+The first witnesses of every run tell which version of mps_{f,d,m}touchunit the tree has (as shipped / with
+fixes/C08_{f,d}unit_allowance.patch, C08_munit_tangent.patch); the model of that version is the one compared.
+
+Sequence tie (run_reuse): harness/c08_reuse.c solves two or three polynomials with exactly known roots one after the other on ONE
+mps_context (search set / detection fixed for the context): inclusion and attrs are state of the context's approximations and
+must not leak from one solve into the next (mps_cluster_reset).  Every IN / OUT / attrs claim of every solve is judged against
+the exact roots contained in the reported disc (exact rational arithmetic), and mps_countroots against the statuses."""
 import os, re, json, collections
 from fractions import Fraction as Fr
 import vf, solve as S, polygen as G, e2e
@@ -187,6 +194,13 @@ def gen_cases(rng, tier_quick):
         for c_ in g: co += [c_, (F0, F0)]
         c = G.mono_case("even%d" % i, "even-real-irrational-imag-roots", co[:-1], rng); c["realcoef"] = True; c["even"] = True
         cs.append(c)
+    # Mignotte-like real polynomials x^d - c (a x - 1)^2: two real roots near 1/a at distance ~ a^-(d/2+1), separated only in the
+    # multiprecision phase (mps_mmodify -> mps_cluster_detect_properties (mp_phase)); roots known to the oracle only
+    for d_, c_, a_ in ([(8, 3, 100), (12, 2, 1000), (6, 2, 5)] if tier_quick else [(8, 3, 100), (12, 2, 1000), (6, 2, 5), (10, 5, 50), (16, 7, 30), (8, 1, 2000)]):
+        co = [(F0, F0)] * (d_ + 1)
+        co[d_] = (Fr(1), F0); co[2] = (Fr(-c_ * a_ * a_), F0); co[1] = (Fr(2 * c_ * a_), F0); co[0] = (Fr(-c_), F0)
+        c = G.mono_case("mignotte-d%d-c%d-a%d" % (d_, c_, a_), "close-real-pair-separated-in-mp-phase", co, rng)
+        c["realcoef"] = True; c["rational"] = "Rational;" in c["text"]; c["mignotte"] = True; cs.append(c)
     # roots scaled far outside the double range: the coefficients overflow / underflow doubles, so the solve starts in the
     # DPE phase (mps_dupdate_inclusions, mps_dtouch*) and may go on to multiprecision; scaling keeps the side of each axis,
     # and the unit-circle cases mix huge and tiny roots
@@ -670,12 +684,15 @@ def run_direct(ctx, stats, only=None):
     hout = run_h(tl + sl)
     ht, hs = hout[:len(tl)], hout[len(tl):]
     # model input: S lines extended with the outcomes taken from the real code
+    # which mps_ftouchunit / mps_dtouchunit the tree has (before / after fixes/C08_{f,d}unit_allowance.patch): the repaired
+    # tests answer `touch' on the witnesses of C08_ftouchunit_refuted / C08_dtouchunit_refuted
+    fixed_unit = {"f": fields(ht[2])[1]["T"][2] == "1", "d": fields(ht[3])[1]["T"][2] == "1"}
     ml = list(tl)
     for c, line, ho in zip(scases, sl, hs):
         _, f = fields(ho)
         if "SM" not in f: raise vf.InfraError("c08_incl: bad output %r" % ho[:200])
         un = "".join(f["T"][7 * i] + f["SD"][6 * i] + f["SD"][6 * i + 1] for i in range(c["n"]))
-        ml.append(line + " " + f["SM"] + " " + un)
+        ml.append(line + " " + f["SM"] + " " + un + (" FX=1" if fixed_unit.get(c["v"]) else ""))
     mout = ctx.run_model_lines("incl", ml, workers=6)
     mt, ms = mout[:len(tl)], mout[len(tl):]
     ctx.log("direct tie: %d touch cases, %d states through harness and model" % (len(tl), len(sl)))
@@ -684,6 +701,8 @@ def run_direct(ctx, stats, only=None):
     # ---- which mps_mtouchunit
     fixed_munit = fields(ht[0])[1]["T"][2] == "1" if only is None or tcases[0]["id"] == "w-m-unit-r0-on-circle" else None
     stats["direct:mps_mtouchunit-version"] = "after-C08_munit_tangent.patch" if fixed_munit else "as-shipped"
+    stats["direct:mps_ftouchunit-version"] = "after-C08_funit_allowance.patch" if fixed_unit["f"] else "as-shipped"
+    stats["direct:mps_dtouchunit-version"] = "after-C08_dunit_allowance.patch" if fixed_unit["d"] else "as-shipped"
     def tsig(v, which, x, y, rho, r):
         if which == "unit": rel = unit_relation(x, y, rho) + ":" + near_circle(x, y)
         else: rel = "tangent" if rho == abs(y if which == "real" else x) else "crossing"
@@ -695,7 +714,7 @@ def run_direct(ctx, stats, only=None):
         if which == "unit":
             if meets_unit(x, y, r):
                 ctx.violation(tsig(v, which, x, y, r, r), "mps_%stouchunit (factor %d) says the disc does not touch the unit circle although the closed disc D(z, r) meets it: z = (%s, %s), r = %s" % (v, fac, fs(x), fs(y), fs(r)), rp); return True
-            if meets_unit(x, y, fac * r): hist["unit:%s:scaled-disc-meets-circle-but-clear(rounding/strictness inside the factor margin)" % v] += 1
+            if meets_unit(x, y, fac * r): hist["unit:%s:%sscaled-disc-meets-circle-but-clear(rounding/strictness inside the factor margin)" % (v, "REPAIRED-TEST:" if fixed_unit.get(v) else "")] += 1
         else:
             cv = y if which == "real" else x
             if meets_axis(cv, fac * r):
@@ -716,6 +735,8 @@ def run_direct(ctx, stats, only=None):
         if c["v"] == "m":
             mbits = mbits[:2] + ((mf["F"] if fixed_munit else mf["T"][2]) if m_unit_modelled(c) else "?")
             hist["m-unit:%s" % ("modelled" if mbits[2] != "?" else "outcome-not-modelled")] += 1
+        elif fixed_unit.get(c["v"]):
+            mbits = mbits[:2] + mf["G"]
         for k, which in enumerate(("real", "imag", "unit")):
             if mbits[k] != "?" and mbits[k] != hf["T"][k] and not bad:
                 key = "touch%s:%s" % (which, c["v"]); mism[key] += 1; mism_ex.setdefault(key, rp)
@@ -788,6 +809,153 @@ def run_direct(ctx, stats, only=None):
             "cases_with_a_violated_claim": nviol, "model_impl_mismatches": dict(mism), "histogram": dict(hist), "samples": samples}
 
 
+# ============================================================================= sequences of solves on ONE context
+# harness/c08_reuse.c: the classification state (inclusion, attrs) lives in the context's approximations and has to be reset
+# between solves (mps_cluster_reset).  Polynomials are prod (d_j x - (a_j + i b_j)) with Gaussian-integer coefficients, so
+# every root (a_j + i b_j) / d_j is known exactly; every root is strictly off both axes and off the unit circle.
+def _hexdy(tok):
+    """[-]HEX:EXP2 -> Fraction"""
+    m, e = tok.split(":")
+    if m in ("0", "-0"): return F0
+    v = int(m, 16); e = int(e)
+    return Fr(v) * TWO ** e
+
+
+def _afloat(tok):
+    """C %a literal followed by :EXP (long) -> Fraction"""
+    m, e = tok.rsplit(":", 1)
+    f = float.fromhex(m)
+    return Fr(f) * TWO ** int(e)
+
+
+def gen_reuse_cases(rng, count):
+    out = []
+    for i in range(count):
+        st = "rludio"[i % 6] if i % 4 != 3 else "RI"[(i // 4) % 2]
+        alg = "us"[(i // 2) % 2] if st not in "RI" else "u"
+        det = "n"
+        realc = st in "RI" or i % 5 == 0
+        if realc and alg == "u" and i % 2 == 0: det = rng.choice("rb") if st != "I" else "n"
+        goal = "ica"[i % 3]
+        k = rng.choice([2, 2, 3])
+        deg0 = rng.randint(2, 6)
+        polys = []
+        for j in range(k):
+            deg = deg0 if j == 0 else rng.randint(max(1, deg0 - 2), deg0)
+            roots, facs = [], []
+            while len(roots) < deg:
+                d = rng.choice([1, 1, 2, 3])
+                if realc and rng.random() < 0.5:
+                    a = rng.randint(-3 * d, 3 * d)
+                    z = (Fr(a, d), F0)
+                    if a == 0 or abs(a) == d or z in roots: continue
+                    roots.append(z); facs.append([(Fr(-a), F0), (Fr(d), F0)])
+                else:
+                    a, b = rng.randint(-3 * d, 3 * d), rng.randint(-3 * d, 3 * d)
+                    z = (Fr(a, d), Fr(b, d))
+                    if a == 0 or b == 0 or a * a + b * b == d * d or z in roots or (z[0], -z[1]) in roots: continue
+                    if realc:
+                        if len(roots) + 2 > deg: continue
+                        roots += [z, (z[0], -z[1])]
+                        facs.append([(Fr(a * a + b * b), F0), (Fr(-2 * a * d), F0), (Fr(d * d), F0)])
+                    else:
+                        roots.append(z); facs.append([(Fr(-a), Fr(-b)), (Fr(d), F0)])
+            co = [(Fr(1), F0)]
+            for f_ in facs: co = S.poly_mul(co, f_)
+            polys.append({"roots": roots, "coeffs": co})
+        out.append({"id": "q%d" % i, "alg": alg, "set": st, "goal": goal, "det": det, "digits": rng.choice([0, 0, 30]), "polys": polys})
+    return out
+
+
+def reuse_line(c):
+    ps = " ".join("%d %s" % (len(p["coeffs"]) - 1, " ".join("%d,%d" % (int(a), int(b)) for a, b in p["coeffs"])) for p in c["polys"])
+    return "Q %s %s %s %s %s %d %d %s" % (c["id"], c["alg"], c["set"], c["goal"], c["det"], c["digits"], len(c["polys"]), ps)
+
+
+def run_reuse(ctx, only=None):
+    h = ctx.compile_harness(["c08_reuse.c"], "c08_reuse", mode="san")
+    cases = only if only is not None else gen_reuse_cases(ctx.rng, ctx.pick(72, 600))
+    lines = [reuse_line(c) for c in cases]
+    byid = collections.defaultdict(dict)
+    hist = collections.Counter(); nsolves = 0; samples = []
+    # every constructed root is strictly off the boundary of the set, so every solve has to terminate: the harness runs in
+    # chunks under a CPU-time limit of the child (the unchanged tree needs well under a second per chunk)
+    CPU = ctx.pick(90, 300)
+    for k in range(0, len(cases), 8):
+        chunk = cases[k:k + 8]
+        rc, out, err = vf.sh(["bash", "-c", "ulimit -t %d; exec %s" % (CPU, h)], input="\n".join(lines[k:k + 8]) + "\n", timeout=20 * CPU, env=ctx.san_env())
+        for l in out.split("\n"):
+            t = l.split()
+            if len(t) >= 2 and t[1].startswith("step="): byid[t[0]][int(t[1][5:])] = l
+        if rc in (124, 137, 152, -9, -24) or (rc != 0 and "CPU time" in (err or "")):
+            stuck = [c for c in chunk if len(byid[c["id"]]) < len(c["polys"]) and not any("ERR=" in l for l in byid[c["id"]].values())]
+            c = stuck[0] if stuck else chunk[0]
+            hist["no-termination"] += 1
+            ctx.violation("reuse:no-termination:set=%s:alg=%s:goal=%s:detect=%s" % (c["set"], c["alg"], c["goal"], c["det"]),
+                          "sequence %s: solve %d of %d on one context used more than %d s of CPU time although no root lies on the boundary of the search set" % (
+                              c["id"], len(byid[c["id"]]) + 1, len(c["polys"]), CPU), {"reuse": [c_json(c)], "line": reuse_line(c)})
+        elif rc != 0:
+            raise vf.InfraError("c08_reuse failed rc=%d: %s" % (rc, (err or "")[-1500:]))
+    for c in cases:
+        st = c["set"]
+        for j, p in enumerate(c["polys"]):
+            l = byid[c["id"]].get(j)
+            rp = {"reuse": [c_json(c)], "step": j, "line": reuse_line(c), "impl": l}
+            if l is None:
+                hist["step-not-reached"] += 1; break
+            if "ERR=" in l:
+                hist["solve-error:%s" % l.split("ERR=")[1][:40]] += 1; break
+            nsolves += 1
+            hist["Q:set=%s:alg=%s:step=%d" % (st, c["alg"], j)] += 1
+            head, *rts = l.split(" R ")
+            hf = dict(x.split("=", 1) for x in head.split()[1:] if "=" in x)
+            if len(samples) < 3: samples.append({"line": rp["line"][:160], "impl": l[:200]})
+            incs = []
+            for i, rt in enumerate(rts):
+                t = rt.split()
+                inc, att = int(t[0]), int(t[1])
+                incs.append(inc)
+                if t[2].startswith("D"): cx, cy = _afloat(t[2][1:]), _afloat(t[3][1:])
+                else: cx, cy = _hexdy(t[2]), _hexdy(t[3])
+                rad = _afloat(t[4])
+                inside = [z for z in p["roots"] if (z[0] - cx) ** 2 + (z[1] - cy) ** 2 <= rad * rad]
+                if not inside: hist["disc-without-constructed-root"] += 1
+                for z in inside:
+                    f = info_exact(z)
+                    tag = "set=%s:alg=%s:step=%s:phase=%s" % (st, c["alg"], "first" if j == 0 else "later", PH.get(int(hf.get("phase", 0)), "?"))
+                    where = "sequence %s, solve %d of %d on the same context: root %d (centre ~ (%.6g, %.6g), radius ~ %.3g) contains the exact root %s" % (
+                        c["id"], j + 1, len(c["polys"]), i, float(cx), float(cy), float(rad), (str(z[0]), str(z[1])))
+                    if inc == 1:
+                        hist["claim-IN:step%d" % min(j, 1)] += 1
+                        if strictly_inside(st, f) is False:
+                            ctx.violation("reuse:incl:claim=IN:root-not-inside:" + tag, "reported INSIDE the set '%s' but the root is not strictly inside: %s" % (SETNAME[st], where), rp)
+                    elif inc == 2:
+                        hist["claim-OUT:step%d" % min(j, 1)] += 1
+                        if strictly_outside(st, f) is False:
+                            ctx.violation("reuse:incl:claim=OUT:root-not-outside:" + tag, "reported OUTSIDE the set '%s' but the root is not strictly outside: %s" % (SETNAME[st], where), rp)
+                    else: hist["claim-UNKNOWN:step%d" % min(j, 1)] += 1
+                    if att:
+                        hist["attrs-%s:step%d" % (S.ATTRS[att], min(j, 1))] += 1
+                        bad = {1: not f["real"], 2: f["real"], 3: not f["imag"], 4: f["imag"], 5: f["real"] or f["imag"]}.get(att, False)
+                        if bad:
+                            ctx.violation("reuse:attrs:%s:wrong:%s:detect=%s" % (S.ATTRS[att], tag, c["det"]), "flagged %s wrongly: %s" % (S.ATTRS[att], where), rp)
+            cnt = [int(x) for x in hf["cnt"].split(",")]
+            zr = int(hf.get("zr", 0))
+            exp = [incs.count(1) + (zr if st != "o" else 0), incs.count(2) + (zr if st == "o" else 0), incs.count(0)]
+            if cnt != exp or sum(cnt) != len(p["coeffs"]) - 1:
+                ctx.violation("reuse:count:set=%s" % st, "mps_countroots gives %s for statuses %s (%d zero roots) in solve %d of sequence %s" % (cnt, incs, zr, j + 1, c["id"]), rp)
+    ctx.log("reuse tie: %d sequences, %d solves on shared contexts" % (len(cases), nsolves))
+    return {"sequences": len(cases), "solves": nsolves, "histogram": dict(hist), "samples": samples}
+
+
+def c_json(c):
+    return dict(c, polys=[{"roots": [[str(a), str(b)] for a, b in p["roots"]], "coeffs": [[str(a), str(b)] for a, b in p["coeffs"]]} for p in c["polys"]])
+
+
+def c_unjson(c):
+    return dict(c, polys=[{"roots": [(Fr(a), Fr(b)) for a, b in p["roots"]], "coeffs": [(Fr(a), Fr(b)) for a, b in p["coeffs"]]} for p in c["polys"]])
+
+
 
 def run(ctx):
     ctx.prove()
@@ -805,9 +973,14 @@ def run(ctx):
         dcov = run_direct(ctx, dstats, only=only)
         return ctx.finish("proof", {"evaluations": dcov["touch_cases"] + dcov["state_cases"], "distinct_nontrivial": dcov["touch_cases"] + dcov["state_cases"],
                                     "rule": "replayed direct-call case", "direct_tie": dcov, "samples": dcov["samples"], "trusted_base": ["replay"]}, [])
-    dcov = None
+    if ctx.replay and json.load(open(ctx.replay)).get("reuse"):
+        rcov = run_reuse(ctx, only=[c_unjson(c) for c in json.load(open(ctx.replay))["reuse"]])
+        return ctx.finish("proof", {"evaluations": rcov["solves"], "distinct_nontrivial": rcov["solves"], "rule": "replayed sequence of solves on one context",
+                                    "reuse_tie": rcov, "samples": rcov["samples"], "trusted_base": ["replay"]}, [])
+    dcov = None; rcov = None
     if not ctx.replay:
         dcov = run_direct(ctx, dstats)
+        rcov = run_reuse(ctx)
     if ctx.replay:
         rp = json.load(open(ctx.replay))
         fr2 = lambda l: [(Fr(a), Fr(b)) for a, b in l] if l else None
@@ -833,6 +1006,14 @@ def run(ctx):
                 for a in "us":
                     for s_ in "io":
                         plan.append((c, ["-a", a, "-G", "ci"[len(plan) % 2], "-S", s_, "-D", "n"]))
+        # close real pairs: real detection under the classic algorithm, with and without the line set (MP-phase detection)
+        plan = [(c, o) for c, o in plan if not c.get("mignotte")]
+        for c in cases:
+            if c.get("mignotte"):
+                for o in (["-a", "u", "-G", "i", "-S", "a", "-D", "r"], ["-a", "u", "-G", "a", "-S", "a", "-D", "r", "-o", "40"],
+                          ["-a", "u", "-G", "i", "-S", "u", "-D", "r"], ["-a", "u", "-G", "c", "-S", "r", "-D", "b"],
+                          ["-a", "s", "-G", "i", "-S", "l", "-D", "n"]):
+                    plan.append((c, o))
         # the scaled family: every search set under both algorithms, goals cycling (reaches the DPE and MP variants)
         plan = [(c, o) for c, o in plan if not c.get("scaled")]
         j = 0
@@ -937,8 +1118,9 @@ def run(ctx):
     ctx.log("judged %d runs" % evaluations)
     hist = lambda key: dict(collections.Counter(key(c, o) for c, o in plan))
     dn = (dcov["touch_cases"] + dcov["state_cases"]) if dcov else 0
+    if rcov: dn += rcov["solves"]
     cov = {"evaluations": evaluations + dn, "distinct_nontrivial": len(nontrivial) + dn,
-           "direct_tie": dict(dcov or {}, **dstats),
+           "direct_tie": dict(dcov or {}, **dstats), "reuse_tie": rcov or {},
            "rule": "end to end: a case is (polynomial, option vector), distinct by both, non-trivial when the search set is restricted (certified polynomial) or detection is on; direct tie: a case is one generated touch triple or one hand-built state (all distinct by construction of the generator, all aimed at a boundary)",
            "solves": len(jobs), "solve_outcomes": dict(kinds), "polynomials": len(cases), "polynomials_certified": int(sum(oks)),
            "claims_judged": dict(stats), "claims_by_set": dict(tally),
@@ -954,8 +1136,9 @@ def run(ctx):
                             "polynomials with roots scaled beyond the double range (class scaled-beyond-double-range) are judged without the oracle: the input is re-verified to be lead*prod(x - z_j) for the constructed exact roots and every containment / side test is exact rational arithmetic in Python",
                             "Python Fractions: identification of a certified root with a constructed exact root (the root lies in the certified tiny disc holding exactly mult roots), sign tests on exact rationals",
                             "direct tie: harness/c08_incl.c (hand-built mps_context: roots, radii, prior inclusion/attrs, clusterization, zero_roots, sep, lmax_coeff, structure, search set, detection bits; it re-evaluates the six side expressions of the switch and the two radius tests with the same library calls as inclusion.c / modify.c, and these replicas are trusted); ocaml/incl_driver.ml (hand-written plumbing, zarith for decimal input only)",
+                            "sequence tie: harness/c08_reuse.c (one context, mps_context_set_input_poly + mps_mpsolve per step, integer coefficients through mps_monomial_poly_set_coefficient_int; exports root[i] fields exactly); the polynomials are products of d x - (a + i b) built in Python, roots (a + i b) / d exact",
                             "variant m: mpc_mod inside mps_mtouchunit and the multiprecision unit-circle side test are not modelled bit for bit (their outcomes are inputs of the model in states; the touch outcome is modelled only for centres on an axis whose square fits the precision); libm log of the radius tests is not modelled (outcomes are inputs)",
-                            "the unit-circle touch tests are only proved up to the refutations C08_{m,f,d}touchunit*_refuted; the DPE / multiprecision products are covered by C08_dtouch_axis_sound (DPE) and its multiprecision corollary relative to the truncated centre"]}
+                            "the shipped unit-circle touch tests are proved sound outside the corner r < 2^-49 and ||z|-1| < 2^-48 (C08_{f,d}touch_unit_sound), refuted inside it (C08_{f,d}touchunit_refuted), the repaired ones (fixes/C08_{f,d}unit_allowance.patch) everywhere; mps_mtouchunit only as a decision on a DPE within delta of |z|-1 (C08_mtouch_unit_sound_partial)"]}
     return ctx.finish("proof", cov, ["imaginary/real detection through the separation bound (log r < sep - n lmax) is only validated empirically (theorem C08_sep_branch_partial takes the root bound as hypothesis)",
                                      "termination is only required (and checked, by timeout) when no constructed root lies on the boundary of the search set; for the sets R and I a root in the set counts as on the boundary",
                                      "crashes / sanitizer reports of the solver itself are counted, not reported (C03, C07)"])
